@@ -478,7 +478,14 @@ pub fn unmanaged_bounds_race(prop: &'static str, seed: u64) -> RaceOut {
     let iters = rng.range(3000, 20000) as usize;
     let querier = rng.chance(2, 3);
     let cnt = Arc::new(UCnt { dropped: AtomicUsize::new(0) });
-    let pool: UPool<UL> = UPool::new(n);
+    // a runtime only to give the timed calls their timer: nothing ever waits in these regimes
+    let timer_rt = tokio::runtime::Builder::new_current_thread().enable_time().build().expect("rt");
+    let timed = !never_full && rng.chance(1, 2);
+    let pool: UPool<UL> = if timed {
+        UPool::from_config(&deadpool::unmanaged::PoolConfig { max_size: n, timeout: None, runtime: Some(deadpool::Runtime::Tokio1) })
+    } else {
+        UPool::new(n)
+    };
     for _ in 0..n {
         if pool.try_add(UL(cnt.clone())).is_err() {
             unreachable!("prefill");
@@ -489,7 +496,9 @@ pub fn unmanaged_bounds_race(prop: &'static str, seed: u64) -> RaceOut {
     let mut hs = Vec::new();
     for _ in 0..g {
         let (pool, calls) = (pool.clone(), calls.clone());
+        let handle = timer_rt.handle().clone();
         hs.push(std::thread::spawn(move || -> Result<(), String> {
+            let _in_rt = handle.enter();
             for i in 0..iters {
                 let r = std::panic::catch_unwind(std::panic::AssertUnwindSafe(|| -> Result<(), String> {
                     if never_full {
@@ -503,6 +512,14 @@ pub fn unmanaged_bounds_race(prop: &'static str, seed: u64) -> RaceOut {
                             },
                             Err(UErr::Timeout) => {}
                             Err(e) => return Err(format!("closed_on_open_pool: iteration {}: try_remove on an open pool failed with {:?}", i, e)),
+                        }
+                    } else if timed && i % 2 == 1 {
+                        // a get with a generous timeout: an object is idle at every instant, so it is served at the
+                        // first poll (a Pending would be odd but is not judged; an error is)
+                        match poll_once(pool.timeout_get(Some(Duration::from_secs(30)))) {
+                            Some(Ok(o)) => drop(o),
+                            Some(Err(e)) => return Err(format!("nonblocking_get_failed: iteration {}: timeout_get(30 s) failed with {:?} at once although at least one object is idle at every instant", i, e)),
+                            None => {}
                         }
                     } else {
                         match pool.try_get() {
@@ -587,6 +604,7 @@ pub fn unmanaged_bounds_race(prop: &'static str, seed: u64) -> RaceOut {
     if viol.is_empty() && (st.size != n || st.available != n || st.waiting != 0 || dropped != 0) {
         viol.push(Violation { prop, oracle: "status_at_rest", msg: format!("{} objects, none outside, {} destroyed: status {:?}", n, dropped, st) });
     }
-    let desc = format!("unmanaged bounds race regime={} threads={} objects={} iters={} querier={} queries={}", if never_full { "never_full" } else { "never_empty" }, g, n, iters, querier, queries);
+    let desc = format!("unmanaged bounds race regime={} timed_gets={} threads={} objects={} iters={} querier={} queries={}", if never_full { "never_full" } else { "never_empty" }, timed, g, n, iters, querier, queries);
+    drop(timer_rt);
     RaceOut { violations: viol, hash: vh_common::fnv1a(desc.as_bytes()), desc: Json::obj().with("engine", "uth_race").with("profile_prop", prop).with("seed", seed).with("case", desc), events: calls.load(Ordering::Relaxed) as u64 + queries }
 }
